@@ -20,7 +20,8 @@ RULE = ('generated model classes (uint with/without fixed_len/Enum/Flag, bool, b
         'overrides) and every shipped model x generated values (width boundaries, empty/252/253/65535/65536+ strings, '
         'non-ASCII text); per value: exact-encoding comparison, round trip, unknown non-critical / critical element '
         'at every gap at every nesting level, duplicated and swapped critical elements; distinct = (class id, value '
-        'shape); non-trivial = at least two fields present')
+        'shape); non-trivial = at least two fields present'
+        '; every model is also encoded into a caller-supplied pre-filled buffer at an offset')
 
 TYPE_POOL = [1, 2, 3, 8, 9, 0x15, 0x80, 0x81, 0xFB, 0xFC, 0xFD, 0xFE, 0xFF, 0x100, 0x101, 0xFFFE, 0xFFFF, 0x10000, 0x10001,
              0xFFFFFFFE, 0xFFFFFFFF]
